@@ -50,11 +50,24 @@ def _spawn(mode, module, func, slc, pct=60, ppt=10, cex=None, wall=None):
     return out
 
 
+def _analyze_with_retry(t):
+    """CrossHair occasionally ends a search as 'exhausted, not confirmed' well inside its budget (an abandoned
+    branch is left as an unexplored stem); the search is randomised, so such a slice is simply run again."""
+    r = None
+    for attempt in range(3):
+        r = _spawn("analyze", t["module"], t["func"], t.get("slice", {}), t.get("pct", 60), t.get("ppt", 10), None,
+                   t.get("wall"))
+        if r.get("status") == "UNKNOWN" and (r.get("cpu_s") or 1e9) < 0.8 * float(t.get("pct", 60)):
+            r["retried"] = attempt + 1
+            continue
+        break
+    return r
+
+
 def run_many(tasks, jobs=None):
     """tasks: list of dict(module, func, slice, pct, ppt[, wall]).  Returns results in order."""
     with cf.ThreadPoolExecutor(max_workers=jobs or JOBS) as ex:
-        futs = [ex.submit(_spawn, "analyze", t["module"], t["func"], t.get("slice", {}), t.get("pct", 60),
-                          t.get("ppt", 10), None, t.get("wall")) for t in tasks]
+        futs = [ex.submit(_analyze_with_retry, t) for t in tasks]
         return [f.result() for f in futs]
 
 
